@@ -96,7 +96,7 @@ var allowedFuncs = map[string]map[string]bool{
 var randMethods = map[string]bool{"Int": true, "Intn": true, "Int31": true, "Int31n": true, "Int63": true, "Int63n": true,
 	"Uint32": true, "Uint64": true, "Float32": true, "Float64": true, "Perm": true, "Shuffle": true, "NormFloat64": true, "ExpFloat64": true, "Read": true}
 
-var syncTypes = map[string]string{"Mutex": "Mutex", "RWMutex": "RWMutex", "Once": "Once", "Pool": "Pool"}
+var syncTypes = map[string]string{"Mutex": "Mutex", "RWMutex": "RWMutex", "Once": "Once", "Pool": "Pool", "Map": "Map"}
 
 func main() {
 	if len(os.Args) != 3 {
